@@ -9,6 +9,22 @@ package main
 //   MAINLEG EVAL <n> | MAINLEG CLASS <name> | MAINLEG VIOL <signature>\t<detail> | MAINLEG DONE
 
 import (
+	"bytes"
+	"context"
+	"runtime"
+	"strings"
+	"unsafe"
+
+	"github.com/scionproto/scion/pkg/segment/iface"
+	"github.com/scionproto/scion/pkg/snet"
+	"github.com/scionproto/scion/pkg/snet/path"
+
+	"example.com/scion-time/core/measurements"
+	"example.com/scion-time/core/server"
+	"example.com/scion-time/core/timebase"
+	"example.com/scion-time/driver/clocks"
+	"example.com/scion-time/net/ntske"
+	"example.com/scion-time/net/scion"
 	"fmt"
 	"log/slog"
 	"math"
@@ -24,10 +40,10 @@ import (
 	"example.com/scion-time/net/udp"
 )
 
-func mlViol(sig, detail string)  { fmt.Printf("MAINLEG VIOL %s\t%s\n", sig, detail) }
-func mlClass(name string)        { fmt.Printf("MAINLEG CLASS %s\n", name) }
-func mlEval(n int)               { fmt.Printf("MAINLEG EVAL %d\n", n) }
-func mlPtr(v any) uintptr        { return reflect.ValueOf(v).Pointer() }
+func mlViol(sig, detail string) { fmt.Printf("MAINLEG VIOL %s\t%s\n", sig, detail) }
+func mlClass(name string)       { fmt.Printf("MAINLEG CLASS %s\n", name) }
+func mlEval(n int)              { fmt.Printf("MAINLEG EVAL %d\n", n) }
+func mlPtr(v any) uintptr       { return reflect.ValueOf(v).Pointer() }
 
 func TestVerifMainLeg(t *testing.T) {
 	leg := os.Getenv("VERIF_MAINLEG")
@@ -90,6 +106,8 @@ func TestVerifMainLeg(t *testing.T) {
 			mlClass("ip reference clocks: a client and a filter of their own each")
 		}
 		mlEval(n)
+	case "c15service":
+		c15Service(log)
 	case "c20wiring":
 		// what the service hands to the key-exchange fetchers of its clients: the configured key-exchange
 		// server and port, the ntske/1 offer, certificate verification as configured, and a fetcher
@@ -108,6 +126,9 @@ func TestVerifMainLeg(t *testing.T) {
 					mlViol("timeservice.newNTPReferenceClockIP|state:NTS enabled although not configured, or not enabled although configured", ke)
 				case f.TLSConfig.ServerName != host || f.Port != port || f.QUIC.Enabled:
 					mlViol("timeservice.configureIPClientNTS|state:fetcher does not name the configured key-exchange server and port over TLS", fmt.Sprintf("%s -> %q %q quic=%v", ke, f.TLSConfig.ServerName, f.Port, f.QUIC.Enabled))
+				case f.TLSConfig.ClientSessionCache != nil:
+					// every attempt is to be a complete new exchange: no TLS session carried over from an earlier one
+					mlViol("timeservice.configureIPClientNTS|state:key exchanges may resume the TLS session of an earlier exchange", ke)
 				case len(f.TLSConfig.NextProtos) != 1 || f.TLSConfig.NextProtos[0] != "ntske/1" || f.TLSConfig.InsecureSkipVerify != skip:
 					mlViol("timeservice.configureIPClientNTS|state:fetcher does not offer ntske/1 only, or certificate verification is not as configured", fmt.Sprintf("%s skip=%v -> %+v %v", ke, skip, f.TLSConfig.NextProtos, f.TLSConfig.InsecureSkipVerify))
 				default:
@@ -123,6 +144,11 @@ func TestVerifMainLeg(t *testing.T) {
 				for i, nc := range c.ntpcs {
 					g := &nc.Auth.NTSKEFetcher
 					fetchers[mlPtr(g)] = true
+					if g.TLSConfig.ClientSessionCache != nil {
+						mlViol("timeservice.configureSCIONClientNTS|state:key exchanges may resume the TLS session of an earlier exchange", fmt.Sprintf("%s client %d", ke, i))
+						ok = false
+						break
+					}
 					if !nc.Auth.NTSEnabled || g.TLSConfig.ServerName != host || g.Port != port || !g.QUIC.Enabled || g.QUIC.DaemonAddr != "127.0.0.1:30255" ||
 						g.QUIC.RemoteAddr.IA != ia1 || g.QUIC.LocalAddr.IA != ia1 || len(g.TLSConfig.NextProtos) != 1 || g.TLSConfig.NextProtos[0] != "ntske/1" || g.TLSConfig.InsecureSkipVerify != skip {
 						mlViol("timeservice.configureSCIONClientNTS|state:fetcher of a client is not set up for the configured key-exchange server over QUIC", fmt.Sprintf("%s client %d", ke, i))
@@ -191,4 +217,189 @@ func TestVerifMainLeg(t *testing.T) {
 		t.Fatalf("unknown leg %q", leg)
 	}
 	fmt.Println("MAINLEG DONE")
+}
+
+// ---- c15service: rounds of a SCION reference clock as the service runs them (ntpReferenceClockSCION.
+// MeasureClockOffset with the paths of a Pather) against the repository's own SCION server on loopback.
+// The Pather's path table is planted by reflection; paths have an empty dataplane path, the server as
+// next hop and distinct interface metadata (distinct fingerprints).
+
+type mlFilter struct {
+	inner     measurements.Filter
+	nDo, nRst int
+}
+
+func (f *mlFilter) Do(cTx, sRx, sTx, cRx time.Time) time.Duration {
+	f.nDo++
+	return f.inner.Do(cTx, sRx, sTx, cRx)
+}
+func (f *mlFilter) Reset() { f.nRst++; f.inner.Reset() }
+
+func c15Service(log *slog.Logger) {
+	ips := strings.Split(os.Getenv("VERIF_MAINLEG_IPS"), ",")
+	if len(ips) != 2 {
+		fmt.Println("MAINLEG VIOL harness|bad VERIF_MAINLEG_IPS\t")
+		return
+	}
+	serverIP, clientIP := net.ParseIP(ips[0]).To4(), net.ParseIP(ips[1]).To4()
+	ctx := context.Background()
+	timebase.RegisterClock(clocks.NewSystemClock(log, clocks.UnknownDrift))
+	localIA, remoteIA := addr.MustParseIA("1-ff00:0:111"), addr.MustParseIA("1-ff00:0:112")
+	pc, err := net.ListenUDP("udp", &net.UDPAddr{IP: serverIP})
+	if err != nil {
+		fmt.Printf("MAINLEG INCONCLUSIVE bind %v\n", err)
+		return
+	}
+	serverPort := pc.LocalAddr().(*net.UDPAddr).Port
+	pc.Close()
+	server.StartSCIONServer(ctx, log, "", &net.UDPAddr{IP: serverIP, Port: serverPort}, 0, ntske.NewProvider())
+	time.Sleep(200 * time.Millisecond)
+	mkpath := func(k int) snet.Path {
+		return path.Path{Src: localIA, Dst: remoteIA, DataplanePath: path.Empty{}, NextHop: &net.UDPAddr{IP: serverIP, Port: serverPort},
+			Meta: snet.PathMetadata{Interfaces: []snet.PathInterface{{IA: localIA, ID: iface.ID(100 + k)}, {IA: remoteIA, ID: iface.ID(200 + k)}}, MTU: 1400}}
+	}
+	clk := newNTPReferenceClockSCION(log, "", udp.UDPAddr{IA: localIA, Host: &net.UDPAddr{IP: clientIP}},
+		udp.UDPAddr{IA: remoteIA, Host: &net.UDPAddr{IP: serverIP, Port: serverPort}}, 0, nil, "", false)
+	clk.pather = &scion.Pather{}
+	setPaths := func(ps []snet.Path) {
+		f := reflect.ValueOf(clk.pather).Elem().FieldByName("paths")
+		reflect.NewAt(f.Type(), unsafe.Pointer(f.UnsafeAddr())).Elem().Set(reflect.ValueOf(map[addr.IA][]snet.Path{remoteIA: ps}))
+	}
+	fs := make([]*mlFilter, len(clk.ntpcs))
+	for i, c := range clk.ntpcs {
+		fs[i] = &mlFilter{inner: c.Filter}
+		c.Filter = fs[i]
+	}
+	seed := uint64(1)
+	fmt.Sscan(os.Getenv("VERIF_SEED"), &seed)
+	rng := rand.New(rand.NewPCG(seed, 15))
+	const nPaths = 10
+	offered := map[int]bool{}
+	rounds := 14
+	fmt.Sscan(os.Getenv("VERIF_MAINLEG_ROUNDS"), &rounds)
+	failed := 0
+	for round := 0; round < rounds; round++ {
+		// the path set of this round: paths come and go, sometimes all of them go
+		switch {
+		case round == 0:
+			for k := 0; k < 4; k++ {
+				offered[k] = true
+			}
+		case round%5 == 4:
+			offered = map[int]bool{}
+		case round%7 == 5:
+			for k := 0; k < nPaths; k++ { // more paths than clients
+				offered[k] = true
+			}
+		default:
+			for k := 0; k < nPaths; k++ {
+				if rng.IntN(4) == 0 {
+					offered[k] = !offered[k]
+				}
+			}
+			if round%3 == 1 { // withdraw the path of a client that holds one
+				for _, c := range clk.ntpcs {
+					if c.InInterleavedMode() {
+						for k := 0; k < nPaths; k++ {
+							if snet.Fingerprint(mkpath(k)).String() == c.InterleavedModePath() {
+								delete(offered, k)
+							}
+						}
+						break
+					}
+				}
+			}
+		}
+		var ps []snet.Path
+		fps := map[string]bool{}
+		for k := 0; k < nPaths; k++ {
+			if offered[k] {
+				ps = append(ps, mkpath(k))
+				fps[snet.Fingerprint(mkpath(k)).String()] = true
+			}
+		}
+		rng.Shuffle(len(ps), func(i, j int) { ps[i], ps[j] = ps[j], ps[i] })
+		setPaths(ps)
+		type st struct {
+			inter  bool
+			path   string
+			do, rs int
+		}
+		before := make([]st, len(clk.ntpcs))
+		for i, c := range clk.ntpcs {
+			before[i] = st{c.InInterleavedMode(), c.InterleavedModePath(), fs[i].nDo, fs[i].nRst}
+		}
+		rctx, cancel := context.WithTimeout(ctx, 2*time.Second)
+		_, _, err := clk.MeasureClockOffset(rctx)
+		cancel()
+		for i := 0; i < 3000; i++ { // let the per-path goroutines of the round end before the clients are looked at
+			buf := make([]byte, 1<<18)
+			if !bytes.Contains(buf[:runtime.Stack(buf, true)], []byte(").measureClockOffsetSCION(")) {
+				break
+			}
+			time.Sleep(time.Millisecond)
+		}
+		cls := fmt.Sprintf("round with %d paths", len(ps))
+		if len(ps) > 7 {
+			cls = "round with more paths than clients"
+		}
+		detail := fmt.Sprintf("round %d, %d paths offered, error %v", round, len(ps), err)
+		took, kept := 0, 0
+		holders := map[string]int{}
+		bad := false
+		for i, c := range clk.ntpcs {
+			did := fs[i].nDo > before[i].do
+			if did {
+				took++
+			}
+			hadPath := before[i].inter && fps[before[i].path]
+			switch {
+			case len(ps) == 0 && (did || c.InInterleavedMode() || (before[i].inter && fs[i].nRst == before[i].rs)):
+				mlViol("timeservice.ntpReferenceClockSCION.MeasureClockOffset|wrong-value:no path offered, but a client measured, kept its interleaved state or was not reset with its filter", detail+fmt.Sprintf(", client %d", i))
+				bad = true
+			case hadPath && !did:
+				mlViol("timeservice.ntpReferenceClockSCION.MeasureClockOffset|wrong-value:client in interleaved mode whose path is still offered did not take part", detail+fmt.Sprintf(", client %d", i))
+				bad = true
+			case hadPath && c.InInterleavedMode() && c.InterleavedModePath() != before[i].path:
+				mlViol("timeservice.ntpReferenceClockSCION.MeasureClockOffset|wrong-value:client in interleaved mode did not keep its still-offered path", detail+fmt.Sprintf(", client %d", i))
+				bad = true
+			case before[i].inter && !hadPath && fs[i].nRst == before[i].rs:
+				mlViol("timeservice.ntpReferenceClockSCION.MeasureClockOffset|wrong-value:client whose path was withdrawn was not reset together with its filter", detail+fmt.Sprintf(", client %d", i))
+				bad = true
+			}
+			if hadPath && c.InInterleavedMode() {
+				kept++
+			}
+			if c.InInterleavedMode() {
+				if j, ok := holders[c.InterleavedModePath()]; ok {
+					mlViol("timeservice.ntpReferenceClockSCION.MeasureClockOffset|wrong-value:two clients hold the same path", detail+fmt.Sprintf(", clients %d and %d", j, i))
+					bad = true
+				}
+				holders[c.InterleavedModePath()] = i
+				if !fps[c.InterleavedModePath()] {
+					mlViol("timeservice.ntpReferenceClockSCION.MeasureClockOffset|wrong-value:client holds a path that was not offered", detail+fmt.Sprintf(", client %d", i))
+					bad = true
+				}
+			}
+		}
+		switch {
+		case bad:
+		case len(ps) == 0 && err == nil:
+			mlViol("timeservice.ntpReferenceClockSCION.MeasureClockOffset|wrong-value:no error although no path was offered", detail)
+		case len(ps) > 0 && took > min(len(clk.ntpcs), len(ps)):
+			mlViol("timeservice.ntpReferenceClockSCION.MeasureClockOffset|wrong-value:more participants than clients or paths", detail)
+		case len(ps) > 0 && took < min(len(clk.ntpcs), len(ps)):
+			failed++ // an exchange that did not complete in time on a busy machine: counted, not judged
+			mlClass("round in which a client's exchange did not complete (not judged)")
+		default:
+			mlClass(cls)
+			if kept > 0 {
+				mlClass("round in which clients in interleaved mode kept their paths")
+			}
+		}
+	}
+	if failed*3 > rounds {
+		fmt.Printf("MAINLEG INCONCLUSIVE %d of %d rounds with exchanges that did not complete\n", failed, rounds)
+	}
+	mlEval(rounds)
 }
